@@ -217,9 +217,16 @@ def invariant_loop(I, node, env, src, spec):
         g0 = _call_named(I, spec.ghost_init, None, env)
         for gname in spec.ghost:
             env.vars[gname] = g0.d[gname]
-    # initiation
-    I.ex.prove(f'{qual}:loop[{spec.name}]:init', call_inv(I, spec, z3.IntVal(0), env), kind='loop-init')
-    step = I.ex.choose(z3.Bool(fresh_name('loop.step')))
+    assumed = spec.name in getattr(I, 'assume_loops', ())
+    if assumed:
+        # phase proof: initiation and consecution of this loop are obligations of another contract
+        # variant of the same function (same check); here only the exit fact is used
+        I.assumption(f'loop invariant {spec.name} is used at the loop exit; its initiation and consecution are discharged by another variant of {env.qual}')
+        step = False
+    else:
+        # initiation
+        I.ex.prove(f'{qual}:loop[{spec.name}]:init', call_inv(I, spec, z3.IntVal(0), env), kind='loop-init')
+        step = I.ex.choose(z3.Bool(fresh_name('loop.step')))
     for name, sort in spec.havoc.items():
         if not _is_live(name, env):
             continue        # a local that exists on some paths only (e.g. `if flag: duplicates = {}`)
